@@ -77,6 +77,24 @@ theorem collections_entries_valid (c : CKind) (t : Ty) (b : Bytes) (m : Val)
   have := accepted_is_valid (.list .vec t) b (.list es) (by simp [Ty.strict, hs]) hb hd
   exact ⟨es, this.1, this.2, hm⟩
 
+
+/-- the reference serializer is injective on well-typed values of a type: no two values of a schema
+    share a serialization (so "the value the specification assigns to those bytes" is well defined) -/
+theorem spec_injective (t : Ty) (v w : Val) (hwf : t.wf = true) (hr : t.rt = true)
+    (hv : hasType t v = true) (hw : hasType t w = true) (hlen : (Spec.ser t v).length < 2^32)
+    (h : Spec.ser t v = Spec.ser t w) : v = w := by
+  have e1 := C03.encode_eq_spec t v hwf hv hlen
+  have e2 := C03.encode_eq_spec t w hwf hw (by rw [← h]; exact hlen)
+  exact C01.encode_injective_on_typed t v w hwf hr hv hw (by rw [e1]; exact hlen) (by rw [e1, e2, h])
+
+/-- decoding is a left inverse of the reference serializer -/
+theorem decode_spec_ser (t : Ty) (v : Val) (hwf : t.wf = true) (hr : t.rt = true)
+    (hv : hasType t v = true) (hlen : (Spec.ser t v).length < 2^32) :
+    decode t (Spec.ser t v) = .ok v := by
+  have e1 := C03.encode_eq_spec t v hwf hv hlen
+  have := C01.roundtrip t v hwf hr hv (by rw [e1]; exact hlen)
+  rwa [e1] at this
+
 /-- non-vacuity: a mixed container, both directions instantiated -/
 example : decode (.container [.uint 2, .list .vec (.uint 1)]) [7, 0, 6, 0, 0, 0, 1, 2]
     = .ok (.tuple [.uint 7, .list [.uint 1, .uint 2]]) := by
